@@ -69,6 +69,7 @@ type Config struct {
 	CrossFileScalarConstType bool // `const b.T C = 1` with b.T an enum / typedef of a base type of another file: Go constant is untyped, import unused
 	OptionalEnumInLiteral bool // struct literal that sets an optional enum member: `&EnumConst` (address of a constant) does not compile
 	ShortPackageNames    bool // files without go namespace whose base name is a single letter: package c/b/p/… is shadowed by locals of the templates
+	CollidingNames       bool // stress names known to collide with generated methods (init_default, …)
 	DupThrows            bool // the same exception type twice in one throws list (duplicate case in the processor's type switch)
 }
 
@@ -110,6 +111,8 @@ type gen struct {
 	consts []constInfo
 	ctr    map[string]int
 	done   []bool // file fully generated
+	cur     int            // file being generated
+	nsNames map[string]int // normalised name within a go namespace -> file that declared it
 	noIdent int            // > 0: inside a literal in which identifiers must not be used
 	will   map[*Field]bool // fields that are going to get a default (decided before any literal is built)
 }
@@ -122,7 +125,7 @@ func Generate(r *vl.Rng, cfg Config) *Program {
 	if cfg.MaxNest > 4 {
 		cfg.MaxNest = 4
 	}
-	g := &gen{r: r, cfg: cfg, p: &Program{}, names: map[string]bool{}, nsUsed: map[string]bool{}, ctr: map[string]int{}, will: map[*Field]bool{}}
+	g := &gen{r: r, cfg: cfg, p: &Program{}, names: map[string]bool{}, nsUsed: map[string]bool{}, ctr: map[string]int{}, will: map[*Field]bool{}, nsNames: map[string]int{}}
 	g.layout()
 	g.done = make([]bool, len(g.p.Files))
 	for i := len(g.p.Files) - 1; i >= 0; i-- {
@@ -250,14 +253,22 @@ func (g *gen) canInclude(i, j int) bool {
 
 var stressTypeNames = []string{
 	"NewFoo", "FooArgs", "FooResult", "foo_bar", "fooBar", "FooBar_", "url_id", "URLId", "UrlID", "http_api", "HTTPApi",
-	"a_b", "aB", "A_B", "New", "Args", "Result", "NewFooArgs", "item_", "_item", "Item", "item", "ITEM", "xml2json",
+	"a_b", "aB", "A_B", "New", "Args", "Result", "NewFooArgs", "item_", "Item", "item", "ITEM", "xml2json",
 	"user_id_list", "UserIDList", "Client", "Processor", "Error", "String_", "my_uuid", "MyUuid", "ip_addr", "Base",
 }
 var stressFieldNames = []string{
 	"id", "ID", "Id", "url", "user_id", "userId", "UserID", "new_name", "a_b", "aB", "A_B", "args", "result", "success",
 	"read", "write", "string", "String", "Read", "Write", "get_x", "x", "set_x", "is_set_x", "field_1", "p", "err", "_x", "x_",
-	"http_url", "HTTPUrl", "json", "Error", "count_set_fields", "init_default", "deep_equal", "value", "key", "size", "v", "ctx",
+	"http_url", "HTTPUrl", "json", "Error", "count_set_fields", "deep_equal", "value", "key", "size", "v", "ctx",
 }
+// names known to produce Go that does not compile on the unchanged tree (Config.CollidingNames puts them back)
+var collidingTypeNames = []string{
+	"_item", // Go name _Item is not exported: cross-package references do not compile
+}
+var collidingFieldNames = []string{
+	"init_default", // field InitDefault vs method InitDefault (not reserved in buildStructLike)
+}
+
 var goKeywords = []string{
 	"type", "func", "range", "select", "chan", "go", "var", "package", "import", "interface", "default", "switch", "case",
 	"return", "break", "continue", "for", "if", "else", "goto", "defer", "fallthrough",
@@ -284,11 +295,24 @@ func (g *gen) globalName(prefix string, pool []string) string {
 	}
 	for try := 0; try < 20; try++ {
 		s := pool[g.r.Intn(len(pool))]
+		if g.cfg.CollidingNames && g.r.Chance(5) {
+			s = collidingTypeNames[g.r.Intn(len(collidingTypeNames))]
+		}
 		if g.r.Chance(30) {
 			s += strconv.Itoa(g.r.Intn(9))
 		}
+		// two files that share a go namespace (= one Go package) must not declare names that identify alike
+		norm := "ns:" + g.p.Files[g.cur].GoNS + ":" + strings.ToLower(strings.ReplaceAll(s, "_", ""))
+		if owner, taken := g.nsNames[norm]; taken && owner != g.cur {
+			continue
+		}
+		// thriftgo reserves New<X> for every struct-like/service client X: `X` and `NewX` together are rejected
+		if g.names["New"+s] || (strings.HasPrefix(s, "New") && g.names[strings.TrimPrefix(s, "New")]) {
+			continue
+		}
 		if !g.names[s] {
 			g.names[s] = true
+			g.nsNames[norm] = g.cur
 			return s
 		}
 	}
@@ -301,6 +325,8 @@ func (g *gen) localName(used map[string]bool, prefix string, pool []string) stri
 			var s string
 			if g.cfg.KeywordNames && g.r.Chance(12) {
 				s = goKeywords[g.r.Intn(len(goKeywords))]
+			} else if g.cfg.CollidingNames && g.r.Chance(10) {
+				s = collidingFieldNames[g.r.Intn(len(collidingFieldNames))]
 			} else {
 				s = pool[g.r.Intn(len(pool))]
 			}
@@ -345,6 +371,7 @@ func (g *gen) visible(fi int) []defn {
 }
 
 func (g *gen) file(fi int) {
+	g.cur = fi
 	f := g.p.Files[fi]
 	c := g.cfg
 	push := func(k byte, i int) { f.Order = append(f.Order, DefRef{k, i}) }
